@@ -455,6 +455,21 @@ pub fn run(name: &str) -> Option<bool> {
                 _ => return None,
             }
         }
+        // C06: `construct!(a, b).guard(..).fallback(..).many()`: a later block that fails the guard
+        "later_block_of_defaulted_repeated_group_fails_guard" => {
+            let g = Spec::Seq(vec![
+                arg(1, Names::long("alpha"), Ty::U32),
+                arg(2, Names::long("beta"), Ty::U32),
+            ]);
+            let g = Spec::wrap(W::Fallback, 4, Spec::wrap(W::Guard, 3, g));
+            let o = OptSpec::plain(Spec::Seq(vec![Spec::wrap(W::Many { catch: false }, 5, g)]));
+            let p = build_options(&o);
+            let out = crate::outcome::run(
+                &p,
+                &bytes(&["--alpha", "1", "--beta", "10", "--alpha", "900001", "--beta", "11"]),
+            );
+            !matches!(out, Outcome::Stderr { text } if text.contains(&crate::build::guard_msg(3)))
+        }
         // C06: `sleep [SECONDS]` as an adjacent command next to trailing words: `sleep 1.5 w0`
         // defaults SECONDS and hands `1.5` to the enclosing level
         "adjacent_command_defaulted_word_masks_invalid_value" => {
